@@ -1,0 +1,18 @@
+//go:build verif
+
+package updater
+
+// Verification helpers (build tag "verif" only); nothing here is compiled into normal builds.
+
+// VerifResource returns the live resource registered under identifier (nil if unknown), so that the
+// verification harness can call Resource.Blacklist / Purge / GetFile on it and read its fields under its lock.
+func (reg *ResourceRegistry) VerifResource(identifier string) *Resource {
+	reg.RLock()
+	defer reg.RUnlock()
+	return reg.resources[identifier]
+}
+
+// VerifRawVersionMatch reports whether s matches rawVersionRegex (the documented raw version format).
+func VerifRawVersionMatch(s string) bool {
+	return rawVersionRegex.MatchString(s)
+}
